@@ -136,3 +136,29 @@ def compare_roundtrip(min_, mout, check_stereo=True, aromatic_ok=True):
                 if same != (par == 0):
                     return "chirality", "atom %d in=%s%r out=%s%r" % (a.idx, a.chirality, a.nbrs, b.chirality, b.nbrs)
     return None
+
+
+def read_decoder_output(out, differs, max_parses=200):
+    """Read a SMILES written by the decoder for comparison with an expected molecule.
+    differs(mol) -> None if mol is the expected molecule, else a difference.
+    -> (mol, status): status 'ok' (mol is the reading to judge; for a text with ring labels >= 100 - known finding F1 -
+    a segmentation that equals the expectation, if there is one), 'budget' (F1 text, segmentation search cut short: no
+    verdict possible, mol None), 'unreadable' (mol None)."""
+    try:
+        m = read_smiles(out)
+        if not has_long_percent_run(out) or differs(m) is None:
+            return m, "ok"
+    except SmilesSyntaxError:
+        m = None
+        if not has_long_percent_run(out):
+            return None, "unreadable"
+    first = m
+    try:
+        for m2 in read_segmented(out, max_parses=max_parses):
+            if differs(m2) is None:
+                return m2, "ok"
+            if first is None:
+                first = m2
+    except SegmentationBudget:
+        return None, "budget"
+    return (first, "ok") if first is not None else (None, "unreadable")
